@@ -7,6 +7,7 @@
 #![allow(clippy::needless_range_loop)]
 
 pub mod gens;
+pub mod aliases;
 
 use std::fmt::Write as _;
 use std::io::Write as _;
